@@ -352,7 +352,8 @@ func parseClassSet(sc *scanner) class {
 			}
 			fallthrough
 		case '-':
-			if len(set.Classes) > 0 {
+			// a '-' right after the range operator is the upper end of the range ([+--])
+			if len(set.Classes) > 0 && !isrange {
 				sc.Next()
 				isrange = true
 				continue
